@@ -69,7 +69,7 @@ func init() {
 }
 
 func runC16(a *A) {
-	r := resolveRoles(a, "C16-R0")
+	r := resolveRolesG(a, "C16-R0", "p")
 	if r != nil {
 		c16R1(a, r)
 		c16R6(a, r)
